@@ -1866,7 +1866,7 @@ class Method:
             (self.output, str, "next_page_token"),
         ):
             field = source.fields.get(name, None)
-            if not field or field.type != source_type:
+            if not field or field.type != source_type or field.repeated:
                 return None
 
         # The request must have page_size (or max_results if legacy API)
